@@ -1144,99 +1144,138 @@ func validatorThresholdRule(p *core.Program, r *core.Report, rule string) {
 // sridRules (C04): the SRID flag and word are written exactly when the SRID is non-zero, read exactly when the flag
 // is set, and every geometry the reader constructs receives the decoded SRID.
 func sridRules(p *core.Program, r *core.Report, rule string) {
-	r.Rule(rule, "ewkb writer: the only condition controlling `type |= ewkbSRID` is g.SRID() != 0 and the only condition controlling the write of the SRID word is that flag (or the same test); ewkb reader: the SRID word is read exactly under `type & ewkbSRID != 0` and each of the 7 geometries Read constructs is given SetSRID(int(srid)) - members carry their own SRID and inherit nothing, so anything else changes decode(encode(x))", 10)
-	pkg := p.SSA.ImportedPackage(core.ModPath + "/encoding/ewkb")
-	if pkg == nil {
-		r.Lost(rule, "encoding/ewkb", "package not found")
-		return
+	r.Rule(rule, "ewkb writer (CONSTEVAL, g.SRID() bound to 0 and to a non-zero probe for each geometry type): the 32-bit writes reached with the non-zero SRID are those reached with SRID 0 plus exactly one, which is handed the SRID; ewkb reader: the SRID word is read exactly under `type & ewkbSRID != 0` and each of the 7 geometries Read constructs is given SetSRID(int(srid)) - members carry their own SRID and inherit nothing, so anything else changes decode(encode(x))", 10)
+	sridReaderEval(p, r, rule)
+	if sridWriterEval(p, r, rule) == 0 {
+		r.Bad(rule, "encoding/ewkb.Write/srid", "", "writer not evaluated")
 	}
-	flagC, _ := pkg.Pkg.Scope().Lookup("ewkbSRID").(*types.Const)
-	if flagC == nil {
-		r.Lost(rule, "encoding/ewkb.ewkbSRID", "constant not found")
-		return
+}
+
+// sridWriterEval (C03/C04): ewkb.Write evaluated with g bound to each geometry type (layout XY) and g.SRID() bound
+// to 0 and to 4326. The 32-bit writes reached with a non-zero SRID are those reached with SRID 0 plus exactly one,
+// and that one is handed the SRID: the word is written exactly when the SRID is non-zero (that the flag in the
+// type word follows the same test is type-word-evaluated's obligation).
+func sridWriterEval(p *core.Program, r *core.Report, rule string) int {
+	if mustFn(p, r, rule, "encoding/ewkb", "Write") == nil {
+		return 0
 	}
-	flag, _ := constant.Int64Val(flagC.Val())
-	isFlag := func(v ssa.Value) bool { k, ok := eng.ConstInt(v); return ok && k == flag }
-	isSRIDCall := func(v ssa.Value) bool {
-		for {
-			switch x := v.(type) {
-			case *ssa.Convert:
-				v = x.X
-				continue
-			case *ssa.ChangeType:
-				v = x.X
-				continue
-			case *ssa.Call:
-				o := eng.CalleeObj(x)
-				return o != nil && o.Name() == "SRID"
-			}
-			return false
-		}
+	isGeomT := func(t types.Type) bool {
+		n, ok := t.(*types.Named)
+		return ok && n.Obj().Name() == "T" && n.Obj().Pkg() != nil && n.Obj().Pkg().Path() == mod
 	}
-	// cond kinds: "srid" = SRID() != 0, "flag" = v & ewkbSRID != 0
-	condKind := func(b *ssa.BasicBlock) string {
-		c, ok := eng.EdgeCmp(b, 0)
-		if !ok || c.Op != token.NEQ {
-			return ""
+	// the writers: Write, and every function of the package with a geom.T parameter that writes 32-bit words
+	// itself (a worker Write delegates to; it is also what members are written with)
+	var writers []*ssa.Function
+	for _, fn := range pkgFuncs(p, "encoding/ewkb") {
+		if fn.Parent() != nil {
+			continue
 		}
-		if k, isK := eng.ConstInt(c.Y); !isK || k != 0 {
-			return ""
+		hasT, writes := false, false
+		for _, prm := range fn.Params {
+			hasT = hasT || isGeomT(prm.Type())
 		}
-		if isSRIDCall(c.X) {
-			return "srid"
-		}
-		if and, isA := c.X.(*ssa.BinOp); isA && and.Op == token.AND && (isFlag(and.X) || isFlag(and.Y)) {
-			return "flag"
-		}
-		return ""
-	}
-	exact := func(blk *ssa.BasicBlock, allowed ...string) string {
-		n := 0
-		for _, cb := range controllingIfs(blk) {
-			k := condKind(cb)
-			okK := false
-			for _, a := range allowed {
-				if a == k {
-					okK = true
+		for _, c := range eng.Calls(fn) {
+			if cc, ok := c.(*ssa.Call); ok {
+				if _, isW := isUint32Write(cc); isW {
+					writes = true
 				}
 			}
-			if !okK {
-				return "an additional condition (" + eng.BlockIf(cb).Cond.String() + ") at " + p.Pos(eng.BlockIf(cb).Cond.Pos()) + " decides it"
+		}
+		if hasT && (writes || fn.Name() == "Write") {
+			writers = append(writers, fn)
+		}
+	}
+	xy := int64(-1)
+	for v, n := range layoutNames(p) {
+		if n == "XY" {
+			xy = v
+		}
+	}
+	const probe = 4326
+	type site struct {
+		val eng.CVal
+		act *eng.CEResult
+	}
+	eval := func(wfn *ssa.Function, dyn types.Type, srid int64) map[*ssa.Call]site {
+		ev := &eng.ConstEval{Inline: pureTableHelper}
+		ev.Override = func(fn *ssa.Function, v ssa.Value, args []eng.CVal) (eng.CVal, bool) {
+			if c, ok := v.(*ssa.Call); ok {
+				if o := eng.CalleeObj(c); o != nil && len(args) > 0 && args[0].K == eng.CType {
+					switch o.Name() {
+					case "Layout":
+						return eng.IntV(xy), true
+					case "SRID":
+						return eng.IntV(srid), true
+					case "Empty", "Stride":
+						return eng.Top, true
+					}
+				}
+			}
+			return eng.CVal{}, false
+		}
+		args := make([]eng.CVal, len(wfn.Params))
+		for i, prm := range wfn.Params {
+			args[i] = eng.Top
+			if isGeomT(prm.Type()) {
+				args[i] = eng.DynV(dyn)
+			}
+		}
+		top := ev.RunStable(wfn, args)
+		out := map[*ssa.Call]site{}
+		eng.WalkReached(top, func(act *eng.CEResult, in ssa.Instruction) {
+			if c, ok := in.(*ssa.Call); ok {
+				if v, isW := isUint32Write(c); isW {
+					out[c] = site{act.Of(v), act}
+				}
+			}
+		})
+		return out
+	}
+	n := 0
+	for _, wfn := range writers {
+		for _, tn := range wkbTypeNames {
+			dyn := geomPtrType(p, tn)
+			if dyn == nil {
+				continue
+			}
+			with, without := eval(wfn, dyn, probe), eval(wfn, dyn, 0)
+			bad := ""
+			var extra []*ssa.Call
+			for c := range with {
+				if _, ok := without[c]; !ok {
+					extra = append(extra, c)
+				}
+			}
+			for c := range without {
+				if _, ok := with[c]; !ok {
+					bad = "a 32-bit word is written only when the SRID is zero (" + p.Pos(c.Pos()) + ")"
+				}
+			}
+			switch {
+			case bad != "":
+			case len(with) == 0:
+				bad = "no 32-bit write is reachable"
+			case len(extra) == 0:
+				bad = "the same words are written whether the SRID is zero or not: the SRID word is never written, or always"
+			case len(extra) > 1:
+				bad = fmt.Sprintf("%d additional words are written when the SRID is non-zero, want exactly the SRID word", len(extra))
+			default:
+				s := with[extra[0]]
+				if k, ok := s.val.Int(); !ok || k != probe {
+					bad = "the word written only when the SRID is non-zero (" + p.Pos(extra[0].Pos()) + ") is " + s.val.String() + ", not uint32(g.SRID())"
+				}
+				// with a non-zero SRID the write is not merely possible: every condition it depends on is decided
+				for _, cb := range controllingIfs(extra[0].Block()) {
+					if _, decided := s.act.Of(eng.BlockIf(cb).Cond).Bool(); !decided && bad == "" {
+						bad = "with a non-zero SRID the SRID word is still written only under a further condition (" + eng.BlockIf(cb).Cond.String() + " at " + p.Pos(eng.BlockIf(cb).Cond.Pos()) + "): the flag and the word do not follow from SRID != 0 alone"
+					}
+				}
 			}
 			n++
-		}
-		if n != 1 {
-			return fmt.Sprintf("%d conditions of the expected form control it, want exactly one", n)
-		}
-		return ""
-	}
-	nset, nword := 0, 0
-	for _, fn := range pkgFuncs(p, "encoding/ewkb") {
-		for _, b := range fn.Blocks {
-			for _, in := range b.Instrs {
-				switch x := in.(type) {
-				case *ssa.BinOp:
-					if x.Op == token.OR && (isFlag(x.X) || isFlag(x.Y)) {
-						nset++
-						why := exact(b, "srid")
-						r.Check(why == "", rule, short(fn)+"/set-flag", p.Pos(x.Pos()), true, "flag set iff SRID() != 0", "the SRID flag is not set exactly when the SRID is non-zero: "+why+"; a geometry whose SRID is dropped decodes to SRID 0")
-					}
-				case *ssa.Call:
-					if f := x.Call.StaticCallee(); f != nil && f.Name() == "Write" && core.FnPkgPath(f) == "encoding/binary" && len(x.Call.Args) == 3 {
-						if mi, ok := x.Call.Args[2].(*ssa.MakeInterface); ok && isSRIDCall(mi.X) {
-							nword++
-							why := exact(b, "srid", "flag")
-							r.Check(why == "", rule, short(fn)+"/write-word", p.Pos(x.Pos()), true, "SRID word written iff flag set", "the SRID word is not written exactly when the flag is set: "+why)
-						}
-					}
-				}
-			}
+			r.Check(bad == "", rule, fmt.Sprintf("encoding/ewkb.%s/srid-word/%s", wfn.Name(), tn), p.Pos(wfn.Pos()), true, "uint32(g.SRID()) is the one extra word written when the SRID is non-zero", bad)
 		}
 	}
-	sridReaderEval(p, r, rule)
-	if nset == 0 || nword == 0 {
-		r.Bad(rule, "encoding/ewkb.Write/srid", "", fmt.Sprintf("writer sites not found: flag-set=%d word-write=%d", nset, nword))
-	}
+	return n
 }
 
 // lastNonEmptyScanRule (C02/C05): a loop that searches a [][]int for a non-empty row, takes that row's last end and
@@ -1320,19 +1359,46 @@ func lastNonEmptyScanRule(p *core.Program, r *core.Report, rule string, floor in
 								continue
 							}
 							for _, li := range lb.Instrs {
-								la, isLA := li.(*ssa.IndexAddr)
-								if !isLA || !rows[la.X] {
-									continue
+								isRow := func(v ssa.Value) bool {
+									for {
+										ct, isCT := v.(*ssa.ChangeType)
+										if !isCT {
+											break
+										}
+										v = ct.X
+									}
+									return rows[v]
 								}
-								sub, isS := la.Index.(*ssa.BinOp)
-								if !isS || sub.Op != token.SUB {
-									continue
-								}
-								if k, isK := eng.ConstInt(sub.Y); !isK || k != 1 {
-									continue
-								}
-								lc, isL := sub.X.(*ssa.Call)
-								if !isL || eng.BuiltinName(lc) != "len" || !rows[lc.Call.Args[0]] {
+								var la ssa.Instruction
+								switch x := li.(type) {
+								case *ssa.IndexAddr:
+									if !isRow(x.X) {
+										continue
+									}
+									sub, isS := x.Index.(*ssa.BinOp)
+									if !isS || sub.Op != token.SUB {
+										continue
+									}
+									if k, isK := eng.ConstInt(sub.Y); !isK || k != 1 {
+										continue
+									}
+									lc, isL := sub.X.(*ssa.Call)
+									if !isL || eng.BuiltinName(lc) != "len" || !isRow(lc.Call.Args[0]) {
+										continue
+									}
+									la = x
+								case *ssa.Call:
+									// an accessor returning the last element of the row
+									callee := x.Call.StaticCallee()
+									if callee == nil {
+										continue
+									}
+									k, isAcc := eng.LastAccessorParam(callee)
+									if !isAcc || k >= len(x.Call.Args) || !isRow(x.Call.Args[k]) {
+										continue
+									}
+									la = x
+								default:
 									continue
 								}
 								// early exit: a path from lb out of the loop that avoids the header
